@@ -143,6 +143,10 @@ ASSUME_NORAISE = {
     ('cssutils/css/cssstylesheet.py', '_setCssText', 'self._cleanNamespaces()'):
         'after a well-formed parse no two @namespace rules share a prefix (namespacerule callback merges them), '
         'so _cleanNamespaces only deletes rules whose URI is declared again later: deleteRule cannot refuse',
+    ('cssutils/css/cssstylesheet.py', '_updateVariables', 'self._variables.setVariable(var, s.variables[var])'):
+        'the value is the serialisation of a variable value that was parsed before; the name is a stored key',
+    ('cssutils/css/cssstylesheet.py', '_updateVariables', 'self._variables.setVariable(var, vr.variables[var])'):
+        'the value is the serialisation of a variable value that was parsed before; the name is a stored key',
     ('cssutils/util.py', '__setitem__', 'rule.prefix = prefix'):
         'the prefix assigned is the prefix the rule was found by: a valid IDENT, and the rule passed the guard',
     ('cssutils/css/cssimportrule.py', '_setCssText', "self.atkeyword = new['keyword']"):
@@ -165,6 +169,15 @@ ASSUME_NORAISE = {
         'the stored token matched the production media_type, whose test is exactly _setMediaType\'s',
     ('cssutils/stylesheets/medialist.py', 'appendMedium', 'self.deleteMedium(newmt)'):
         'guarded by `newmt in mts`: the medium is in the list, and the read-only guard was passed in __prepareset',
+}
+# Statements whose exception path the static discipline cannot validate (the code undoes an in-place insertion by
+# searching for the element and deleting it: no save/restore shape). For these mutators a second, *guarded* script is
+# emitted in which the statement is assumed not to raise; `all_disciplined_guarded` is about those. The unguarded
+# script stays in `scripts` (and in the exemption list of `all_disciplined_partial`); the raising path itself is
+# covered by the oracle and the trace correspondence only.
+GUARDED_SITES = {
+    ('cssutils/css/cssstylesheet.py', 'insertRule', 'self._cleanNamespaces()'):
+        'insert, clean, on rejection delete the inserted rule again by identity (cssstylesheet.py:815-826)',
 }
 # fields that no public query reads (so a change is not an observable change), with the reason
 UNOBSERVABLE_FIELDS = {
@@ -503,8 +516,9 @@ def may_exc(s):
 
 
 def strip_raises(s):
+    """the statement is assumed not to raise: drop `raise` / `mayRaise` (the read-only guard stays)"""
     k = s[0]
-    if k in ('raise', 'mayRaise', 'guard'):
+    if k in ('raise', 'mayRaise'):
         return ('skip',)
     if k == 'seq':
         return seq([strip_raises(x) for x in s[1]])
@@ -544,6 +558,8 @@ class Env:
         self.last_save = {}
         self.facts = {}          # 'self.attr' -> bool known on this path
         self.nondom = []         # enclosing try blocks with non-DOM handlers: [types, flag, used]
+        self.sentinel = {}       # local name -> flag "the callee returned a bool sentinel"
+        self.retflag = None      # set when this function returns bool sentinels on some paths
         self.types = {}          # local name -> frozenset of type tags, absent = unknown
         self.dicts = {}          # (dict local, constant key) -> type tags or None
 
@@ -590,6 +606,8 @@ class Translator:
         self.assumed = set()     # ASSUME_NORAISE entries that were applied
         self.extents = {}        # line id of a marked statement -> line id of its last line
         self.foreign_cache = {}
+        self.guarded = False     # translate the guarded variant (GUARDED_SITES assumed not to raise)
+        self.guard_sites = set()
 
     def note(self, env, node, text):
         self.notes.append(('%s:%s' % (env.file, getattr(node, 'lineno', '?')), text))
@@ -657,9 +675,23 @@ class Translator:
             e2.dicts = self.prescan_dicts(fn, e2)
         if any(isinstance(n, (ast.Yield, ast.YieldFrom)) for n in own_nodes(fn)):
             raise Unsupported('generator %s' % fn.name)
+        self.last_retflag = None
+        if closure_of is None:
+            kinds_ret = [self.sentinel_return(n) for n in own_nodes(fn) if isinstance(n, ast.Return)]
+            if any(kinds_ret) and not all(kinds_ret):
+                e2.retflag = '%d:sentinel' % self.uid
         body = self.block(fn.body, e2)
+        self.last_retflag = e2.retflag
         body = self.subst_rec(body, key)
         return ('scope', body)
+
+    @staticmethod
+    def sentinel_return(n):
+        """`return False` / `return True, True`: a bool constant (first component) instead of an object"""
+        v = n.value
+        if isinstance(v, ast.Tuple) and v.elts:
+            v = v.elts[0]
+        return isinstance(v, ast.Constant) and isinstance(v.value, bool)
 
     def subst_rec(self, s, key):
         """a recursive call behaves like the method: it raises (leaving, inductively, nothing behind) or changes
@@ -1125,6 +1157,10 @@ class Translator:
             if key in ASSUME_NORAISE:
                 self.assumed.add(key)
                 r = strip_raises(r)
+            if key in GUARDED_SITES:
+                self.guard_sites.add(key)
+                if self.guarded:
+                    r = strip_raises(r)
         return r
 
     def stmt0(self, st, env):  # noqa: C901
@@ -1138,7 +1174,15 @@ class Translator:
                 return ('skip',)
             return self.marked(st, env, seq(self.eff(st.value, env)))
         if isinstance(st, ast.Assign):
+            self.last_retflag = None
             pre = self.eff(st.value, env)
+            if self.last_retflag and isinstance(st.value, ast.Call) and len(st.targets) == 1:
+                t0 = st.targets[0]
+                if isinstance(t0, (ast.Tuple, ast.List)) and t0.elts:
+                    t0 = t0.elts[0]
+                if isinstance(t0, ast.Name):
+                    env.sentinel[t0.id] = self.last_retflag
+            self.last_retflag = None
             k = self.kind_of(st.value, env)
             post = []
             for t in st.targets:
@@ -1146,7 +1190,10 @@ class Translator:
             return self.marked(st, env, seq(pre + post))
         if isinstance(st, ast.AugAssign):
             pre = self.eff(st.value, env)
+            keep = env.types.get(st.target.id) if isinstance(st.target, ast.Name) else None
             post = self.assign_target(st.target, None, LOCAL, env)
+            if isinstance(st.target, ast.Name) and keep is not None and keep <= {'num', 'str'}:
+                env.types[st.target.id] = keep
             return self.marked(st, env, seq(pre + [post]))
         if isinstance(st, ast.AnnAssign):
             if st.value is None:
@@ -1156,7 +1203,8 @@ class Translator:
                                                                       self.kind_of(st.value, env), env)]))
         if isinstance(st, ast.Return):
             pre = self.eff(st.value, env) if st.value is not None else []
-            return seq([self.marked(st, env, seq(pre)), ('ret',)])
+            fl = [('setFlag', env.retflag, self.sentinel_return(st))] if env.retflag else []
+            return seq([self.marked(st, env, seq(pre))] + fl + [('ret',)])
         if isinstance(st, ast.Raise):
             pre = self.eff(st.exc, env) if st.exc is not None else []
             if st.exc is not None:
@@ -1225,6 +1273,12 @@ class Translator:
             b, kb = self.branch(st.orelse, env)
             self.merge_env(env, ka, kb)
             return ('ifFlag', env.flag(t.id), b, a) if neg else ('ifFlag', env.flag(t.id), a, b)
+        sv = self.sentinel_test(st.test, env)
+        if sv is not None:
+            a, ka = self.branch(st.body, env)
+            b, kb = self.branch(st.orelse, env)
+            self.merge_env(env, ka, kb)
+            return ('ifFlag', sv, a, b)
         pre = self.marked(st, env, seq(self.eff(st.test, env)))
         verdict = self.static_test_split(st.test, env)
         if verdict is True:
@@ -1236,6 +1290,23 @@ class Translator:
         b, kb = self.branch(st.orelse, env, ff)
         self.merge_env(env, ka, kb)
         return seq([pre, choice(a, b)])
+
+    @staticmethod
+    def sentinel_test(t, env):
+        """`x is False or x is True` for a local bound to the result of a sentinel-returning callee -> its flag"""
+        if not (isinstance(t, ast.BoolOp) and isinstance(t.op, ast.Or) and len(t.values) == 2):
+            return None
+        names, consts = set(), set()
+        for v in t.values:
+            if not (isinstance(v, ast.Compare) and len(v.ops) == 1 and isinstance(v.ops[0], ast.Is)
+                    and isinstance(v.left, ast.Name) and isinstance(v.comparators[0], ast.Constant)
+                    and isinstance(v.comparators[0].value, bool)):
+                return None
+            names.add(v.left.id)
+            consts.add(v.comparators[0].value)
+        if len(names) == 1 and consts == {True, False}:
+            return env.sentinel.get(next(iter(names)))
+        return None
 
     @staticmethod
     def test_facts(t):
@@ -1888,8 +1959,14 @@ def extract_all(repo):
             tr = Translator(src)
             try:
                 body, where = tr.mutator(cname, m)
+                gbody = None
+                if tr.guard_sites:
+                    tg = Translator(src)
+                    tg.guarded = True
+                    gbody = tg.mutator(cname, m)[0]
                 out.append({'cls': cname, 'member': m, 'body': body, 'where': where, 'notes': tr.notes,
-                            'deps': sorted(tr.deps), 'extents': tr.extents,
+                            'deps': sorted(tr.deps), 'extents': tr.extents, 'gbody': gbody,
+                            'guard_sites': sorted('%s:%s: %s' % k for k in tr.guard_sites),
                             'assumed': sorted('%s:%s: %s' % k for k in tr.assumed)})
             except Unsupported as ex:
                 failed.append((cname, m, str(ex)))
@@ -2007,7 +2084,14 @@ def generate(repo):
             name, o['where'][0], o['where'][2], o['where'][1],
             ', '.join('%d=%s' % (i, f) for f, i in sorted(fi.items(), key=lambda x: x[1])) or '(none)'))
         lines.append('def %s : Stmt :=\n  %s\n' % (ident(name), lean_term(o['body'], fi, gi)))
+        if o['gbody'] is not None:
+            gfi, ggi = number(o['gbody'])
+            lines.append('/-- %s with the statements of GUARDED_SITES assumed not to raise (%s) -/' % (
+                name, '; '.join(o['guard_sites'])))
+            lines.append('def %s : Stmt :=\n  %s\n' % (ident(name) + '_guarded', lean_term(o['gbody'], gfi, ggi)))
         recs.append({'name': name, 'cls': o['cls'], 'member': o['member'], 'fields': fi, 'flags': gi,
+                     'guarded': None if o['gbody'] is None else number(o['gbody'])[0],
+                     'guard_sites': o['guard_sites'],
                      'body': numbered(o['body'], fi, gi), 'where': o['where'], 'notes': o['notes'],
                      'deps': o['deps'], 'size': size(o['body']), 'extents': o['extents'],
                      'assumed': o['assumed']})
@@ -2027,6 +2111,16 @@ def generate(repo):
 
     lines.append(',\n'.join('  ⟨"%s", %s, %s⟩' % (r['name'], '[' + ', '.join(str(i) for i in r['observable']) + ']',
                                                 ident(r['name'])) for r in recs))
+    lines.append(']\n')
+    lines.append('/-- the guarded variants: same mutators, the listed statements assumed not to raise -/')
+    lines.append('def scriptsGuarded : List Script := [')
+    gl = []
+    for r in recs:
+        if r['guarded'] is not None:
+            unobs = set(r['unobservable'])
+            obs = sorted(i for f, i in r['guarded'].items() if f not in unobs and not f.startswith('@'))
+            gl.append('  ⟨"%s", %s, %s_guarded⟩' % (r['name'], '[' + ', '.join(str(i) for i in obs) + ']', ident(r['name'])))
+    lines.append(',\n'.join(gl))
     lines.append(']\n')
     lines.append('/-- mutators the translator could not extract (none expected) -/')
     lines.append('def notExtracted : List String := [%s]\n' % ', '.join('"%s.%s"' % (c, m) for c, m, _ in failed))
